@@ -246,3 +246,51 @@ def run_subprocess(files_root: Path, argv: Sequence[str], env_extra: Optional[Di
     p = subprocess.run([sys.executable, '-m', 'pydoctor', *argv], cwd=str(cwd or files_root), env=env,
                        capture_output=True, text=True, timeout=timeout)
     return p.returncode, p.stdout, p.stderr
+
+
+# ------------------------------------------------------------------------------------
+# recording / tracing System (also usable through the real --system-class option)
+
+class RecordingSystem(model.System):
+    """System that records every message (section, text, thresh) and the processing trace."""
+
+    def __init__(self, options: Any = None) -> None:
+        self.messages: List[Tuple[str, str, int]] = []
+        self.trace: List[Tuple[str, str]] = []        # ('enter'|'exit', module full name)
+        super().__init__(options)
+
+    def msg(self, section: str, msg: str, thresh: int = 0, topthresh: int = 100, nonl: bool = False,
+            wantsnl: bool = True, once: bool = False) -> None:
+        if not (once and (section, msg) in self.once_msgs):
+            self.messages.append((section, msg, thresh))
+        super().msg(section, msg, thresh, topthresh, nonl, wantsnl, once)
+
+    def processModule(self, mod: Any) -> None:
+        self.trace.append(('enter', mod.fullName()))
+        try:
+            super().processModule(mod)
+        finally:
+            self.trace.append(('exit', mod.fullName()))
+
+    def warnings(self) -> List[Tuple[str, str]]:
+        return [(s, m) for s, m, t in self.messages if t < 0]
+
+
+def processing_graph(trace: Sequence[Tuple[str, str]]) -> Tuple[set, set]:
+    """States = (frozenset processed, tuple processing-stack); transitions labelled by the event."""
+    states, trans = set(), set()
+    done: frozenset = frozenset()
+    stack: Tuple[str, ...] = ()
+    st = (done, stack)
+    states.add(st)
+    for ev, name in trace:
+        if ev == 'enter':
+            stack = stack + (name,)
+        else:
+            stack = stack[:-1]
+            done = done | {name}
+        st2 = (done, stack)
+        states.add(st2)
+        trans.add((st, (ev, name, 'scheduler' if (ev == 'enter' and len(stack) == 1) else 'on-demand' if ev == 'enter' else 'done'), st2))
+        st = st2
+    return states, trans
